@@ -171,7 +171,9 @@ pub struct MapRun {
 /// write inputs, build, and run `ska map` with the case's flags in the given format
 pub fn run_map(ctx: &Ctx, dir: &std::path::Path, c: &Case, m: &Mat, vcf: bool) -> Result<MapRun, Outcome> {
     let names = contig_names(m.reference.len());
-    cli::write_fasta(&dir.join("ref.fa"), &names, &m.reference, c.width.map(|w| w as usize));
+    // FASTA headers may carry a description after the name; it is not part of the contig name
+    let headers: Vec<String> = names.iter().enumerate().map(|(i, n)| if (i + c.k / 2) % 2 == 0 { format!("{n} len={} some description", m.reference[i].len()) } else { n.clone() }).collect();
+    cli::write_fasta(&dir.join("ref.fa"), &headers, &m.reference, c.width.map(|w| w as usize));
     let one_step = c.one_step && c.k == 17 && c.rc && m.samples.len() >= 2;
     let mut args: Vec<String> = vec!["map".into(), "ref.fa".into()];
     if one_step {
